@@ -25,10 +25,10 @@ from harness.gnpy_util import NONE
 
 BOUNDS = {
     # tier -> list of MC runs (MaxSpans, LossSet, MultiUser, Rich, replay stride for profiles with >1 span)
-    'quick': [dict(max_spans=2, losses='MCLossesQuick', multi=False, rich=True, stride1=3, stride2=14, propagate_every=2)],
-    'thorough': [dict(max_spans=3, losses='MCLossesQuick', multi=False, rich=True, stride1=1, stride2=6, propagate_every=3),
-                 dict(max_spans=2, losses='MCLossesFull', multi=False, rich=False, stride1=1, stride2=2, propagate_every=3),
-                 dict(max_spans=1, losses='MCLossesFull', multi=True, rich=False, stride1=2, stride2=1, propagate_every=3)],
+    'quick': [dict(max_spans=2, losses='MCLossesQuick', multi=False, rich=True, stride1=4, stride2=19, propagate_every=2)],
+    'thorough': [dict(max_spans=3, losses='MCLossesQuick', multi=False, rich=True, stride1=1, stride2=8, propagate_every=3),
+                 dict(max_spans=2, losses='MCLossesFull', multi=False, rich=False, stride1=1, stride2=3, propagate_every=3),
+                 dict(max_spans=1, losses='MCLossesFull', multi=True, rich=False, stride1=3, stride2=1, propagate_every=3)],
 }
 TOL = 3            # micro-dB, B2 equality of a designed setting with TLC's expectation
 CLAUSES = ['Closure', 'RefChannelAtTarget', 'PowerRule', 'ZeroBeforeRoadm', 'ReductionOnlyAsNeeded',
@@ -55,8 +55,9 @@ def db(x):
     return x / 1e6
 
 
-def equipment_for(cfg):
-    return U.synthetic_equipment(FG, span=dict(power_mode=cfg['mode'] == 1,
+def equipment_for(cfg, auto_voa=False):
+    lib = [dict(m, out_voa_auto=True) for m in FG] if auto_voa else FG
+    return U.synthetic_equipment(lib, span=dict(power_mode=cfg['mode'] == 1,
                                                delta_power_range_db=[db(cfg['lo']), db(cfg['hi']), db(cfg['step'])],
                                                power_slope=cfg['slope'] / 1000, span_loss_ref=db(cfg['ref']),
                                                padding=10, EOL=0.5, con_in=0.25, con_out=0.25,
@@ -109,7 +110,8 @@ def replay(js, chk, traces, ctxs, dev, propagate):
     design equals the expectation, else a dict describing the first amplifier that differs (reported by `report_b2`
     together with the clause names TLC finds for the same design)."""
     cfg, oms, exp = js['cfg'], js['oms'], js['out']
-    eq = equipment_for(cfg)
+    auto = oms['rich'] == 1                 # library models with out_voa_auto: the design may add v to gain, dp and voa
+    eq = equipment_for(cfg, auto_voa=auto)
     spans, att = spans_for(oms)
     topo = U.line_topology(spans, roadm_a={'params': {'target_pch_out_db': db(oms['t0'])}}, amps=amps_for(oms))
     key = json.dumps([cfg, oms], sort_keys=True)
@@ -133,8 +135,15 @@ def replay(js, chk, traces, ctxs, dev, propagate):
             return dict(name=name, cfg=cfg, oms=oms, att=att, k=k, fields=['span-loss'], amps=cx[0]['amps'],
                         profile=dict(L=a['L'], Ln=a['Ln']), line=dict(L=e['L'], Ln=e['Ln']))
         bad = []
-        for f in ('gain', 'dp', 'voa'):
-            d = abs(e[f] - x[f])
+        if auto and a['uVoa'] == NONE:
+            # the size of the automatic VOA is not decided by the property: compare what every admissible design of
+            # the model has in common, the gain and the offset net of the VOA (and the VOA must not be negative)
+            pairs = [('gain-voa', e['gain'] - e['voa'], x['gain'] - x['voa']),
+                     ('dp-voa', e['dp'] - e['voa'], x['dp'] - x['voa']), ('voa>=0', min(e['voa'], 0), 0)]
+        else:
+            pairs = [(f, e[f], x[f]) for f in ('gain', 'dp', 'voa')]
+        for f, got, want in pairs:
+            d = abs(got - want)
             if d > TOL:
                 bad.append(f)
             else:
@@ -261,12 +270,17 @@ def run_b3(chk):
     traces, ctxs, stats = [], {}, {}
     n_amp = 0
     skipped = []
-    for name, topo, eqf, extra, tier in U.SHIPPED:
+    # every shipped network as shipped; some also with the documented library option out_voa_auto switched on for every
+    # model and the amplifiers turned into placeholders (no shipped library uses the option)
+    corpus = [(n, t, e, x, tier, False, None) for n, t, e, x, tier in U.SHIPPED]
+    corpus += [(n + '-autovoa', t, e, x, tier, True, {'out_voa_auto': True}) for n, t, e, x, tier in U.SHIPPED
+               if n in ('meshV2', 'td_testTopology', 'CORONET_CONUS')]
+    for name, topo, eqf, extra, tier, strip, attrs in corpus:
         if tier == 'thorough' and chk.tier == 'quick':
             continue
         for mode in (True, False):
             try:
-                net, eq, ref, rec = U.design(topo, eqf, extra, power_mode=mode)
+                net, eq, ref, rec = U.design(topo, eqf, extra, power_mode=mode, strip=strip, edfa_attrs=attrs)
             except U.LoadError as e:
                 chk.cov.setdefault('b3_not_loadable', []).append(f'{name}: {str(e)[:80]}')
                 continue
@@ -298,6 +312,7 @@ def run_b3(chk):
     chk.cov['b3_amplifiers'] = n_amp
     chk.cov['b3_amplifiers_propagated'] = sum(1 for t in traces for e in t['ev'] if e['tot'] != NONE)
     chk.cov['b3_roadm_outputs_judged'] = sum(t['rd']['judged'] for t in traces)
+    chk.cov['b3_amplifiers_with_automatic_voa'] = sum(1 for t in traces for e in t['ev'] if e['uVoa'] == NONE and e['voa'] > 0)
     chk.cov['b3_stats'] = {k: (v[:5] if isinstance(v, list) else v) for k, v in stats.items()}
     chk.cov['b3_user_settings'] = {f: sum(1 for t in traces for e in t['ev'] if e[f] != NONE) for f in ('uGain', 'uDp', 'uVoa')}
     chk.cov['b3_reduced_amplifiers'] = sum(1 for t in traces for e in t['ev'] if abs(t['prefTot'] + e['dp'] - e['pmax']) <= 10)
@@ -316,7 +331,8 @@ def run(chk):
     mism = []
     b2_traces, b2_ctx = [], {}
     n_cases = n_ok = 0
-    exercised = dict(reduced=0, offset_kept=0, gain_kept=0, user_voa=0, padded=0, zero_before_roadm=0, in_voa=0)
+    exercised = dict(reduced=0, offset_kept=0, gain_kept=0, user_voa=0, padded=0, zero_before_roadm=0, in_voa=0,
+                     bound_off_step=0, auto_voa_followed_by_amplifier=0)
     for b in BOUNDS[chk.tier]:
         r = tlc.run('MC_DesignPower', cfg_text=mc_cfg(b), timeout=2400, tag='c09-mc')
         chk.add_mc(f'MC_DesignPower MaxSpans={b["max_spans"]} {b["losses"]} MultiUser={b["multi"]} Rich={b["rich"]}', r)
@@ -326,8 +342,11 @@ def run(chk):
             seen.setdefault(k, []).append(js)
         for k, v in sorted(seen.items()):
             js = v[0]
-            if len(v) != 1:
+            if js['oms']['rich'] == 0 and len(v) != 1:
                 raise Machinery('replayable profile with more than one admissible design')
+            inv = {json.dumps([[o['gain'] - o['voa'], o['dp'] - o['voa']] for o in w['out']]) for w in v}
+            if len(inv) != 1:
+                raise Machinery('admissible designs of an automatic-VOA profile differ by more than the VOA')
             n_cases += 1
             m = replay(js, chk, b2_traces, b2_ctx, dev, propagate=(n_cases % b.get('propagate_every', 1) == 0))
             if m is None:
@@ -335,6 +354,10 @@ def run(chk):
             else:
                 mism.append(m)
             cfg = js['cfg']
+            exercised['bound_off_step'] += cfg['step'] > 0 and (cfg['lo'] % cfg['step'] != 0 or cfg['hi'] % cfg['step'] != 0)
+            if js['oms']['rich'] == 1 and b2_traces and b2_traces[-1]['name'].endswith(format(zlib.crc32(k.encode()), '08x')):
+                ev = b2_traces[-1]['ev']
+                exercised['auto_voa_followed_by_amplifier'] += any(e['voa'] > 0 and e['uVoa'] == NONE for e in ev[:-1])
             for a, o in zip(js['oms']['amps'], js['out']):
                 gk = cfg['mode'] == 0 and a['uGain'] != NONE
                 exercised['reduced'] += cfg['prefTot'] + o['dp'] == a['pmax']
